@@ -29,6 +29,10 @@ type Part struct {
 	Race  bool                  // run these scenarios with the -race binary
 	// Serial parts run in a single worker (e.g. wall-clock sensitive ones).
 	Serial bool
+	// Timeout is the per-scenario watchdog (default 3 minutes). When it fires the worker records the goroutine
+	// dump, reports a hang if rosmar frames are blocked on a lock (else inconclusive) and exits; the supervisor
+	// restarts a worker for the remaining scenarios.
+	Timeout time.Duration
 }
 
 type Check struct {
@@ -182,16 +186,38 @@ func WorkerMain(prop, tier string, seed uint64, scns []int, outPath, tmp string,
 		c := &Ctx{Prop: prop, Tier: tier, Seed: seed, Scn: scn, Local: local, Part: part.Name, Race: race, Replay: replay, Tmp: tmp,
 			out: enc, cells: map[string]struct{}{}, counts: map[string]int64{}, maxes: map[string]int64{}}
 		c.emit(Rec{T: "start", Scn: scn, Part: part.Name, Local: local})
-		func() {
+		finished := make(chan struct{})
+		go func() {
+			defer close(finished)
 			defer func() {
 				if r := recover(); r != nil {
 					buf := make([]byte, 16384)
 					buf = buf[:runtime.Stack(buf, false)]
-					c.Viol([]string{prop}, prop+"|harness-panic|"+NormPanic(fmt.Sprint(r)), fmt.Sprintf("panic escaped scenario: %v", r), string(buf))
+					c.Viol([]string{prop}, "panic-escaped|"+NormPanic(fmt.Sprint(r)), fmt.Sprintf("panic escaped scenario: %v", r), string(buf))
 				}
 			}()
 			part.Run(c)
 		}()
+		to := part.Timeout
+		if to == 0 {
+			to = 3 * time.Minute
+		}
+		select {
+		case <-finished:
+		case <-time.After(to):
+			buf := make([]byte, 4<<20)
+			buf = buf[:runtime.Stack(buf, true)]
+			dump := string(buf)
+			if fn := BlockedRosmar(dump); fn != "" {
+				c.Viol([]string{prop, "C20"}, "hang|"+fn, fmt.Sprintf("scenario did not finish within %s; goroutines are blocked on a lock inside rosmar: %s", to, fn), trimDump(dump))
+			} else {
+				c.Incon(fmt.Sprintf("scenario exceeded %s without lock-wait evidence", to))
+			}
+			c.emit(Rec{T: "done", Scn: scn, Part: part.Name, Local: local, Counts: c.counts, Incon: c.incon})
+			c.emit(Rec{T: "abort", Scn: scn})
+			f.Close()
+			os.Exit(7)
+		}
 		cells := make([]string, 0, len(c.cells))
 		for k := range c.cells {
 			cells = append(cells, k)
@@ -306,6 +332,7 @@ type workerRun struct {
 	tmp     string
 	exit    int
 	timed   bool
+	crashes []crashInfo
 }
 
 // Run executes a check and returns the process exit code.
@@ -448,13 +475,84 @@ func Run(o Options) int {
 	return finish(chk, o, m, t0, raceOwned, raceForeign)
 }
 
+type crashInfo struct {
+	scn     int
+	rec     Rec
+	exit    int
+	timed   bool
+	stderr  string
+	first   string
+	unstart bool
+}
+
+// scanOut reads a worker's record file: which scenarios started / finished.
+func scanOut(path string) (started map[int]Rec, finished map[int]bool) {
+	started, finished = map[int]Rec{}, map[int]bool{}
+	f, err := os.Open(path)
+	if err != nil {
+		return
+	}
+	defer f.Close()
+	sc := bufio.NewScanner(f)
+	sc.Buffer(make([]byte, 1<<24), 1<<24)
+	for sc.Scan() {
+		var r Rec
+		if json.Unmarshal(sc.Bytes(), &r) != nil {
+			continue
+		}
+		switch r.T {
+		case "start":
+			started[r.Scn] = r
+		case "done":
+			finished[r.Scn] = true
+		}
+	}
+	return
+}
+
+// runWorker runs a worker process over w.scns, restarting it for the remaining scenarios if it dies or aborts.
 func runWorker(o Options, w *workerRun, timeout time.Duration) {
+	remaining := append([]int(nil), w.scns...)
+	deadline := time.Now().Add(timeout)
+	for attempt := 0; attempt < 200 && len(remaining) > 0; attempt++ {
+		errPath := fmt.Sprintf("%s.%d", w.errPath, attempt)
+		exit, timed := runWorkerOnce(o, w, remaining, errPath, time.Until(deadline))
+		started, finished := scanOut(w.out)
+		if exit == 0 {
+			return
+		}
+		// which scenario was running?
+		cur := -1
+		var curRec Rec
+		for _, sidx := range remaining {
+			if r, ok := started[sidx]; ok && !finished[sidx] {
+				cur, curRec = sidx, r
+			}
+		}
+		if exit != 7 { // 7 = the worker reported the hang itself
+			ci := crashInfo{scn: cur, rec: curRec, exit: exit, timed: timed, stderr: tail(errPath, 24000), first: firstFatalLine(head(errPath, 1<<20))}
+			w.crashes = append(w.crashes, ci)
+		}
+		var next []int
+		for _, sidx := range remaining {
+			if _, ok := started[sidx]; !ok {
+				next = append(next, sidx)
+			}
+		}
+		if timed || len(next) == len(remaining) {
+			return // out of time, or no progress (worker cannot even start)
+		}
+		remaining = next
+	}
+}
+
+func runWorkerOnce(o Options, w *workerRun, scns []int, errPath string, timeout time.Duration) (exit int, timed bool) {
 	bin := o.Bin
 	if w.race {
 		bin = o.RaceBin
 	}
-	strs := make([]string, len(w.scns))
-	for i, s := range w.scns {
+	strs := make([]string, len(scns))
+	for i, s := range scns {
 		strs[i] = fmt.Sprint(s)
 	}
 	args := []string{"worker", "--prop", o.Prop, "--tier", o.Tier, "--seed", fmt.Sprint(o.Seed),
@@ -466,7 +564,7 @@ func runWorker(o Options, w *workerRun, timeout time.Duration) {
 		args = append(args, "--replay")
 	}
 	cmd := exec.Command(bin, args...)
-	ef, _ := os.Create(w.errPath)
+	ef, _ := os.Create(errPath)
 	defer ef.Close()
 	cmd.Stdout = ef
 	cmd.Stderr = ef
@@ -475,25 +573,27 @@ func runWorker(o Options, w *workerRun, timeout time.Duration) {
 		cmd.Env = append(cmd.Env, "GORACE=halt_on_error=0 history_size=3 log_path="+w.raceLog)
 	}
 	if err := cmd.Start(); err != nil {
-		w.exit = 99
-		return
+		return 99, false
 	}
 	done := make(chan error, 1)
 	go func() { done <- cmd.Wait() }()
+	if timeout < time.Second {
+		timeout = time.Second
+	}
 	select {
 	case err := <-done:
 		if err != nil {
 			if ee, ok := err.(*exec.ExitError); ok {
-				w.exit = ee.ExitCode()
-				if w.exit == 0 {
-					w.exit = 98
+				exit = ee.ExitCode()
+				if exit == 0 {
+					exit = 98
 				}
 			} else {
-				w.exit = 97
+				exit = 97
 			}
 		}
 	case <-time.After(timeout):
-		w.timed = true
+		timed = true
 		_ = cmd.Process.Signal(syscall.SIGQUIT)
 		select {
 		case <-done:
@@ -501,8 +601,9 @@ func runWorker(o Options, w *workerRun, timeout time.Duration) {
 			_ = cmd.Process.Kill()
 			<-done
 		}
-		w.exit = 96
+		exit = 96
 	}
+	return
 }
 
 func tail(path string, n int) string {
@@ -529,9 +630,6 @@ func head(path string, n int) string {
 
 func mergeWorker(chk *Check, o Options, w *workerRun, m *Merged) {
 	f, err := os.Open(w.out)
-	started := map[int]Rec{}
-	finished := map[int]bool{}
-	sawExit := false
 	if err == nil {
 		sc := bufio.NewScanner(f)
 		sc.Buffer(make([]byte, 1<<24), 1<<24)
@@ -541,12 +639,9 @@ func mergeWorker(chk *Check, o Options, w *workerRun, m *Merged) {
 				continue
 			}
 			switch r.T {
-			case "start":
-				started[r.Scn] = r
 			case "viol":
 				m.Viols = append(m.Viols, Violation{Props: r.Props, Sig: r.Sig, Msg: r.Msg, Scn: r.Scn, Part: r.Part, Local: r.Local, Detail: r.Detail})
 			case "done":
-				finished[r.Scn] = true
 				m.Evaluations++
 				m.PartEvals[r.Part]++
 				for _, c := range r.Cells {
@@ -566,41 +661,67 @@ func mergeWorker(chk *Check, o Options, w *workerRun, m *Merged) {
 				if r.Incon != "" {
 					m.Incon = append(m.Incon, fmt.Sprintf("scn %d: %s", r.Scn, r.Incon))
 				}
-			case "exit":
-				sawExit = true
 			}
 		}
 		f.Close()
 	}
-	if sawExit && w.exit == 0 {
-		return
+	for _, ci := range w.crashes {
+		if ci.timed {
+			// A supervisor watchdog firing alone is inconclusive unless the dump shows rosmar frames blocked on a lock.
+			if dl := BlockedRosmar(ci.stderr); dl != "" {
+				m.Viols = append(m.Viols, Violation{Props: []string{o.Prop, "C20"}, Sig: "hang|" + dl, Msg: "worker exceeded the run watchdog with rosmar goroutines blocked on a mutex: " + dl, Scn: ci.scn, Part: ci.rec.Part, Local: ci.rec.Local, Detail: ci.stderr})
+			} else {
+				m.Incon = append(m.Incon, fmt.Sprintf("worker %d: run watchdog fired in scn %d (no lock-wait evidence)", w.id, ci.scn))
+			}
+			continue
+		}
+		if ci.first == "" && ci.exit == 99 {
+			m.Incon = append(m.Incon, fmt.Sprintf("worker %d could not start", w.id))
+			continue
+		}
+		m.Viols = append(m.Viols, Violation{Props: []string{o.Prop, "C20"}, Sig: "crash|" + NormPanic(ci.first),
+			Msg: fmt.Sprintf("worker process died (exit %d) during scenario %d: %s", ci.exit, ci.scn, ci.first),
+			Scn: ci.scn, Part: ci.rec.Part, Local: ci.rec.Local, Detail: ci.stderr})
 	}
-	// Abnormal end: find the scenario that was running.
-	cur := -1
-	var curRec Rec
-	for s, r := range started {
-		if !finished[s] && s > cur {
-			cur, curRec = s, r
+}
+
+func trimDump(d string) string {
+	if len(d) > 60000 {
+		return d[:60000] + "\n...[truncated]"
+	}
+	return d
+}
+
+// BlockedRosmar returns the innermost rosmar functions of goroutines parked in sync.Mutex.Lock / semacquire.
+func BlockedRosmar(dump string) string {
+	var found []string
+	for _, b := range strings.Split(dump, "\n\n") {
+		m := reGoroutine.FindStringSubmatch(b)
+		if m == nil {
+			continue
+		}
+		st := m[1]
+		if !(strings.HasPrefix(st, "sync.Mutex.Lock") || strings.HasPrefix(st, "semacquire")) {
+			continue
+		}
+		if fn := innermostRosmar(b); fn != "" {
+			found = append(found, fn)
 		}
 	}
-	stderr := tail(w.errPath, 24000)
-	if w.timed {
-		// A watchdog firing alone is inconclusive unless the dump shows rosmar frames blocked on a lock.
-		if dl := deadlockEvidence(stderr); dl != "" {
-			m.Viols = append(m.Viols, Violation{Props: []string{o.Prop}, Sig: o.Prop + "|hang|" + dl, Msg: "worker exceeded watchdog with rosmar goroutines blocked on a mutex: " + dl, Scn: cur, Part: curRec.Part, Local: curRec.Local, Detail: stderr})
-		} else {
-			m.Incon = append(m.Incon, fmt.Sprintf("worker %d watchdog fired in scn %d (no lock-wait evidence)", w.id, cur))
+	if len(found) == 0 {
+		return ""
+	}
+	sort.Strings(found)
+	uniq := found[:1]
+	for _, f := range found[1:] {
+		if f != uniq[len(uniq)-1] {
+			uniq = append(uniq, f)
 		}
-		return
 	}
-	first := firstFatalLine(head(w.errPath, 1<<20))
-	if first == "" && w.exit == 99 {
-		m.Incon = append(m.Incon, fmt.Sprintf("worker %d could not start", w.id))
-		return
+	if len(uniq) > 4 {
+		uniq = uniq[:4]
 	}
-	m.Viols = append(m.Viols, Violation{Props: []string{o.Prop}, Sig: o.Prop + "|crash|" + NormPanic(first),
-		Msg:    fmt.Sprintf("worker process died (exit %d) during scenario %d: %s", w.exit, cur, first),
-		Scn:    cur, Part: curRec.Part, Local: curRec.Local, Detail: stderr})
+	return strings.Join(uniq, ",")
 }
 
 func firstFatalLine(s string) string {
